@@ -14,7 +14,7 @@ EXPLANATION = (
     "call site -- necessary and sufficient for 'every proposal extends the typed text'.  R20.2: the scope walk uses "
     "get_names() only for the innermost scope and get_propagated_names() for enclosing scopes (so class attributes are "
     "not offered inside methods).  R20.3: the scope lookup is given the line number and the indentation of the same "
-    "line.  'Returns without internal error at every position' and completeness are not decided."
+    "line.  R20.4: in find_definition the offset-restricting filter precedes the accepting identity filter.  'Returns without internal error at every position' and completeness are not decided."
 )
 ASSUMPTIONS = ["proposal name is the first constructor argument"]
 
@@ -151,3 +151,8 @@ def check(ctx, res) -> None:
                     "the holding scope is looked up with the line number of one line and the indentation of another: on a continuation line "
                     "indented differently from its statement the enclosing class/outer scope is chosen, so locals are not offered and class attributes are")
     res.floor("R20.3", "indent-qualified scope lookups", n3, 1)
+
+    # ---- R20.4 go-to-definition: the "not before the binding line" filter must be consulted before the identity filter
+    from .c02 import filter_order_rule
+
+    filter_order_rule(ctx, res, "R20.4", "rope.contrib.findit.find_definition")
